@@ -486,6 +486,20 @@ type c05Spec struct {
 	RolePeriod time.Duration `json:"role_period"`
 	Renewable  bool          `json:"renewable"`
 	Steps      []*c05Step    `json:"steps"`
+	Text       string        `json:"text"` // the same, readable (durations in the other fields are nanoseconds)
+}
+
+func (sp *c05Spec) describe() {
+	var st []string
+	for _, x := range sp.Steps {
+		t := fmt.Sprintf("wait %s renew +%s", x.Wait, x.Inc)
+		if x.Tune {
+			t = fmt.Sprintf("wait %s tune mount max=%s renew +%s", x.Wait, x.NewMax, x.Inc)
+		}
+		st = append(st, t)
+	}
+	sp.Text = fmt.Sprintf("%s ns=%q mount max/default=%s/%s system max=%s ttl=%s backend max=%s period=%s explicit max=%s role explicit max=%s role period=%s renewable=%v; %s",
+		sp.Kind, sp.NS, sp.MountMax, sp.MountDef, sp.SysMax, sp.TTL, sp.BMax, sp.Period, sp.XMax, sp.RoleXMax, sp.RolePeriod, sp.Renewable, strings.Join(st, "; "))
 }
 
 type c05Round struct {
@@ -557,6 +571,7 @@ func c05GenSpec(rng *kit.Rand, round c05Round, ns string) c05Spec {
 		}
 		sp.Steps = append(sp.Steps, st)
 	}
+	sp.describe()
 	return sp
 }
 
